@@ -1,4 +1,4 @@
-from armulator.armv6.bits_ops import substring, bit_at, chain
+from armulator.armv6.bits_ops import substring, bit_at, chain, sign_extend
 from armulator.armv6.opcodes.abstract_opcodes.b import B
 
 
@@ -10,7 +10,7 @@ class BT3(B):
         j2 = bit_at(instr, 11)
         j1 = bit_at(instr, 13)
         s = bit_at(instr, 26)
-        imm32 = chain(s, chain(j2, chain(j1, chain(imm6, imm11, 11), 17), 18), 19) << 1
+        imm32 = sign_extend(chain(s, chain(j2, chain(j1, chain(imm6, imm11, 11), 17), 18), 19) << 1, 21, 32)
         if processor.in_it_block():
             print('unpredictable')
         else:
